@@ -65,6 +65,7 @@ type TcbInfoSpec struct {
 	AttrMask   string
 	Mods       []ModIdent
 	OmitMods   bool // omit the tdxModuleIdentities member entirely
+	TimeStyle  int  // how issueDate / nextUpdate are written: see FormatTime
 	Levels     []Level
 }
 
@@ -99,7 +100,7 @@ func (s *TcbInfoSpec) JSON() string {
 		mods = `"tdxModuleIdentities":[` + strings.Join(ms, ",") + `],`
 	}
 	return fmt.Sprintf(`{"id":%q,"version":%s,"issueDate":%q,"nextUpdate":%q,"fmspc":"%s","pceId":"%s","tcbType":0,"tcbEvaluationDataNumber":15,"tdxModule":{"mrsigner":"%s","attributes":"%s","attributesMask":"%s"},%s"tcbLevels":[%s]}`,
-		s.ID, s.Version, s.IssueDate.UTC().Format(time.RFC3339), s.NextUpdate.UTC().Format(time.RFC3339), s.Fmspc, s.PceID,
+		s.ID, s.Version, FormatTime(s.IssueDate, s.TimeStyle), FormatTime(s.NextUpdate, s.TimeStyle), s.Fmspc, s.PceID,
 		s.MrSigner, s.Attr, s.AttrMask, mods, strings.Join(ls, ","))
 }
 
@@ -130,11 +131,12 @@ type QeIDSpec struct {
 	MrSigner   string
 	IsvProdID  string // JSON number text
 	Levels     []IsvLevel
+	TimeStyle  int
 }
 
 func (s *QeIDSpec) JSON() string {
 	return fmt.Sprintf(`{"id":%q,"version":%s,"issueDate":%q,"nextUpdate":%q,"tcbEvaluationDataNumber":15,"miscselect":"%s","miscselectMask":"%s","attributes":"%s","attributesMask":"%s","mrsigner":"%s","isvprodid":%s,"tcbLevels":%s}`,
-		s.ID, s.Version, s.IssueDate.UTC().Format(time.RFC3339), s.NextUpdate.UTC().Format(time.RFC3339),
+		s.ID, s.Version, FormatTime(s.IssueDate, s.TimeStyle), FormatTime(s.NextUpdate, s.TimeStyle),
 		s.Misc, s.MiscMask, s.Attr, s.AttrMask, s.MrSigner, s.IsvProdID, isvLevels(s.Levels))
 }
 
@@ -217,4 +219,23 @@ func (g *Getter) Get(u string) (map[string][]string, []byte, error) {
 		h = nil
 	}
 	return h, append([]byte(nil), r.B...), nil
+}
+
+
+// FormatTime writes an instant as an RFC 3339 timestamp in one of several legal styles (same instant):
+// 0 "…Z", 1 "+00:00", 2 positive offset, 3 negative offset with minutes, 4 fractional seconds ".000Z", 5 "…000000Z".
+func FormatTime(t time.Time, style int) string {
+	switch style % 6 {
+	case 1:
+		return t.UTC().Format("2006-01-02T15:04:05") + "+00:00"
+	case 2:
+		return t.In(time.FixedZone("", 2*3600)).Format(time.RFC3339)
+	case 3:
+		return t.In(time.FixedZone("", -(9*3600 + 30*60))).Format(time.RFC3339)
+	case 4:
+		return t.UTC().Format("2006-01-02T15:04:05") + ".000Z"
+	case 5:
+		return t.UTC().Format("2006-01-02T15:04:05") + ".000000000Z"
+	}
+	return t.UTC().Format(time.RFC3339)
 }
